@@ -42,6 +42,7 @@ SCENE = """<mujoco>
   <tendon>
     <spatial name="ts" stiffness="5" damping="0.3" limited="true" range="0 0.8" frictionloss="0.05" margin="0.01" springlength="0.3" armature="0.01"><site site="sa"/><site site="sf"/></spatial>
     <fixed name="tf" stiffness="1"><joint joint="h" coef="1"/><joint joint="h2" coef="-2"/></fixed>
+    <fixed name="tg" stiffness="0.5" damping="0.05"><joint joint="h2" coef="1.5"/></fixed>
   </tendon>
   <equality><connect body1="ball" body2="mc" anchor="0.1 0 0.2" solref="0.03 1"/><joint joint1="h" joint2="h2" polycoef="0 0.1 0 0 0" solref="0.04 1"/></equality>
   <actuator>
